@@ -8,6 +8,7 @@ use databroker::types::DataValue;
 use databroker_proto::kuksa::val::v1 as p1;
 use databroker_proto::kuksa::val::v2 as p2;
 use databroker_proto::sdv::databroker::v1 as ps;
+use futures::StreamExt;
 use std::collections::HashMap;
 use std::time::SystemTime;
 
@@ -587,8 +588,161 @@ pub async fn step_api(w: &mut World, op: Tok, c: &mut Cur<'_>, start: SystemTime
                 }
             }
         }
+        // ---- subscriptions through the handlers: the proto stream is read back into the core's message
+        //      type, so that RECV / DROP and the canonical message lines of the history family apply
+        33 => {
+            let (Some(mask), Some(path)) = (c.next(), c.string()) else { return bad };
+            let mut fields = Vec::new();
+            if mask & 1 != 0 {
+                fields.push(p1::Field::Value as i32);
+            }
+            if mask & 2 != 0 {
+                fields.push(p1::Field::ActuatorTarget as i32);
+            }
+            if mask & 4 != 0 {
+                fields.push(p1::Field::MetadataUnit as i32);
+            }
+            // fields the handler ignores
+            fields.push(p1::Field::MetadataDescription as i32);
+            fields.push(99);
+            let ids = path_ids(w).await;
+            let request = p1::SubscribeRequest { entries: vec![p1::SubscribeEntry { path, view: 0, fields }] };
+            match p1::val_server::Val::subscribe(&b, req(request, Some(&perms))).await {
+                Err(s) => vec![vec![1, code_num(s.code())]],
+                Ok(r) => {
+                    let st = r.into_inner().map(move |m| match m {
+                        Ok(m) => v1_to_core(m, &ids),
+                        Err(_) => databroker::broker::EntryUpdates::default(),
+                    });
+                    w.subs.push(Some(Box::pin(st)));
+                    vec![vec![0, (w.subs.len() - 1) as Tok]]
+                }
+            }
+        }
+        34 => {
+            let (Some(buf), Some(n)) = (c.next(), c.next()) else { return bad };
+            let mut paths = Vec::new();
+            let mut nums = Vec::new();
+            for _ in 0..n {
+                match c.next() {
+                    Some(2) => match c.string() {
+                        Some(s) => paths.push(s),
+                        None => return bad,
+                    },
+                    Some(3) => match c.next() {
+                        Some(i) => nums.push(i as i32),
+                        None => return bad,
+                    },
+                    _ => return bad,
+                }
+            }
+            if !paths.is_empty() && !nums.is_empty() {
+                return bad;
+            }
+            let ids = path_ids(w).await;
+            if nums.is_empty() {
+                let request = p2::SubscribeRequest { signal_paths: paths, buffer_size: buf as u32 };
+                match p2::val_server::Val::subscribe(&b, req(request, Some(&perms))).await {
+                    Err(s) => vec![vec![1, code_num(s.code())]],
+                    Ok(r) => {
+                        let st = r.into_inner().map(move |m| match m {
+                            Ok(m) => v2_to_core(m.entries.into_iter().filter_map(|(p, d)| ids.get(&p).map(|i| (*i, d))).collect()),
+                            Err(_) => databroker::broker::EntryUpdates::default(),
+                        });
+                        w.subs.push(Some(Box::pin(st)));
+                        vec![vec![0, (w.subs.len() - 1) as Tok]]
+                    }
+                }
+            } else {
+                let request = p2::SubscribeByIdRequest { signal_ids: nums, buffer_size: buf as u32 };
+                match p2::val_server::Val::subscribe_by_id(&b, req(request, Some(&perms))).await {
+                    Err(s) => vec![vec![1, code_num(s.code())]],
+                    Ok(r) => {
+                        let st = r.into_inner().map(move |m| match m {
+                            Ok(m) => v2_to_core(m.entries.into_iter().collect()),
+                            Err(_) => databroker::broker::EntryUpdates::default(),
+                        });
+                        w.subs.push(Some(Box::pin(st)));
+                        vec![vec![0, (w.subs.len() - 1) as Tok]]
+                    }
+                }
+            }
+        }
         _ => bad,
     }
+}
+
+/// path -> id of every registered signal (the client's view of the catalogue)
+async fn path_ids(w: &World) -> HashMap<String, i32> {
+    let all = all();
+    let mut m = HashMap::new();
+    w.broker
+        .authorized_access(&all)
+        .for_each_entry(|e| {
+            m.insert(e.metadata().path.clone(), e.metadata().id);
+        })
+        .await;
+    m
+}
+
+fn sys_time(t: &Option<prost_types_ts::Timestamp>) -> SystemTime {
+    match t {
+        Some(ts) => std::time::UNIX_EPOCH + std::time::Duration::new(ts.seconds.max(0) as u64, ts.nanos.max(0) as u32),
+        None => std::time::UNIX_EPOCH,
+    }
+}
+
+/// a kuksa.val.v1 SubscribeResponse read back as the core's message
+fn v1_to_core(m: p1::SubscribeResponse, ids: &HashMap<String, i32>) -> databroker::broker::EntryUpdates {
+    use databroker::broker::{ChangeNotification, Datapoint, EntryUpdate, Field};
+    let conv = |d: p1::Datapoint| Datapoint {
+        ts: sys_time(&d.timestamp),
+        source_ts: None,
+        value: from_v1_value(&d.value).unwrap_or(DataValue::NotAvailable),
+    };
+    let mut updates = Vec::new();
+    for u in m.updates {
+        let Some(e) = u.entry else { continue };
+        let id = ids.get(&e.path).copied().unwrap_or(-1);
+        let fields: std::collections::HashSet<Field> = u
+            .fields
+            .iter()
+            .filter_map(|f| match *f {
+                2 => Some(Field::Datapoint),
+                3 => Some(Field::ActuatorTarget),
+                16 => Some(Field::MetadataUnit),
+                _ => None,
+            })
+            .collect();
+        let actuator_target = if fields.contains(&Field::ActuatorTarget) { Some(e.actuator_target.map(conv)) } else { None };
+        updates.push(ChangeNotification {
+            id,
+            update: EntryUpdate { datapoint: e.value.map(conv), actuator_target, ..Default::default() },
+            fields,
+        });
+    }
+    databroker::broker::EntryUpdates { updates }
+}
+
+/// a kuksa.val.v2 Subscribe(ById)Response read back as the core's message
+fn v2_to_core(entries: Vec<(i32, p2::Datapoint)>) -> databroker::broker::EntryUpdates {
+    use databroker::broker::{ChangeNotification, Datapoint, EntryUpdate, Field};
+    let updates = entries
+        .into_iter()
+        .map(|(id, d)| ChangeNotification {
+            id,
+            update: EntryUpdate {
+                datapoint: Some(Datapoint {
+                    ts: sys_time(&d.timestamp),
+                    source_ts: None,
+                    value: from_v2_value(&d.value).unwrap_or(DataValue::NotAvailable),
+                }),
+                ..Default::default()
+            },
+            fields: [Field::Datapoint].into_iter().collect(),
+        })
+        .collect();
+    databroker::broker::EntryUpdates { updates }
 }
 
 async fn block_id(w: &World, path: &str) -> Tok {
